@@ -28,6 +28,11 @@ ENTRY = ['lookup', 'lookup1', 'lookupAll', 'names', 'subscriptions',
 GC_EVERY = 20
 
 
+# thorough tier: coverage-guided campaigns on top of the random ones
+ATHERIS = [{'impl': 'py', 'n': 20000, 'name': 'py-atheris'},
+           {'impl': 'c', 'n': 20000, 'name': 'c-atheris'}]
+
+
 def configs(tier, seed):
     n = 2000 if tier == 'quick' else 16000
     out = [{'name': impl + '-cache', 'impl': impl, 'mode': 'hyp', 'n': n}
